@@ -65,6 +65,12 @@ theorem c19_socket_disciplines :
     discSendUnicast = "closeAfterUse" ∧ discSendMessage = "deferClose" ∧ discCatchReply = "closerOnCancel" ∧
     pingCancelsOnReturn = true ∧ advanceStateCancelsOnReturn = true := by decide
 
+/-- The constructors of lib/rsocks: recognised shape (socket(2), its error check, set-up steps), every error return after
+the descriptor exists closes it, and the public constructors only delegate. -/
+theorem c19_rsocks_constructors :
+    ctorSendCloses.all id = true ∧ ctorRecvCloses.all id = true ∧ ctorSendCloses ≠ [] ∧ ctorRecvCloses ≠ [] ∧
+    rsocksCtorsDelegate = true := by decide
+
 /-! ### sanitising, resolv.conf -/
 theorem c17_regexes :
     reBadChars = "[^a-zA-Z0-9,\\.-]" ∧ reGoodChars = "^[a-zA-Z0-9\\.-]+$" ∧ reGoodNums = "^[0-9\\.]+$" ∧
